@@ -133,6 +133,29 @@ EXTRA = {
     'C19': ('', ' The rendered data set is a feature cover of the collected data (every UTC/DST offset pair, abbreviation and item type; thorough: every zone), for both libraries.'),
     'C20': ('', ' A generated source with offsets that are not multiples of the basic granularity on both sides of UTC is compiled in every run.'),
 }
+EXTRA2 = {
+    'C01': ' Configurations: five zones in rotation through a manager with two cache slots and through direct zones sharing one processor, every three days of 2000..2049, against processors of their own.',
+    'C02': ' Configurations: the same rotation through BasicZoneManager<2> and a shared BasicZoneProcessor.',
+    'C03': ' The generated sources place era boundaries on rule transitions, use offsets with one-minute resolution on both sides of UTC (remainders of 8 minutes, a negative offset below one hour), SAVE 0:20, the g suffix and UNTIL day expressions that carry into the next month; three constructs on which AceTime is known to differ from zic are recognised structurally and reported as known findings.',
+    'C04': ' The UTC days 1999-12-31 and 2050-01-01 (accepted by the processor) are compared too, and a freshly compiled generated source is read by ZoneSpecifier from its Python tables and by the processor from its C++ tables.',
+    'C05': ' compareTo is checked against partners at every distance up to 2^32-2 s; the zone sweep is followed by non-monotonic histories (years descending, the first 14 hours of every month start after a later year was served).',
+    'C06': ' Every (month, day) byte pair x boundary years is checked against the documented component contract of isError for LocalDate, LocalDateTime and OffsetDateTime.',
+    'C07': ' Algorithm level: the same recorded resolutions must equal ExtProc.Resolve / BasicProc.ResolveB evaluated by TLC at every recorded piece start and every wall time at which the model can change.',
+    'C09': ' Every accessor of the value types is called on any component values (error values included) in an ASan+UBSan recover build, findings identified by input class; the compiler is also run with start years other than 2000 and ExtProc.Covered must hold for every accepted year.',
+    'C10': ' Several registrars and managers alive in one process with lookups alternating between them; absent names that collide with a present name under the zone-id hash.',
+    'C11': ' Further sources: names that normalise to one identifier, a link declared twice, a link to a link, a link to nothing; generated Python tables, C++ definitions, registry and id constants audited; an emitted link must denote the zone zic resolves it to.',
+    'C12': ' Decoded tables are also compared with an independent reading of the source lines (vf/tzparse.py); generated tables are compiled with default diagnostics and MC_Encoding models deltaCode as the signed int8 field it is.',
+    'C13': ' The model has a KeepAlive poll (a poll that reads nothing); the model graph is replayed on a SystemClock (keepAlive()) and on a SystemClockLoop without reference clock (loop()).',
+    'C14': ' A configuration with calls more than 65.536 s apart, one with a sync period above 2^15 s (uint16 doubling), reference value 0, and a second driver compiled against copies of the clock headers in which unsigned long is uint32_t (bases just below 2^32).',
+    'C15': ' Zoned date-times are also printed after another zone used the shared processor / the single manager slot.',
+    'C16': ' Histories: zones obtained with createForZoneInfo (registry bypass) and used, then restored by id; zones sharing one processor saved after the other one used it; manual zones differing only in their DST part.',
+    'C18': ' The real filter is also run on three-rule policies (the verdict must not depend on the position of the offending rule).',
+    'C19': ' tools/validator/zstdgenerator.py on every zone of tools/zonedbpy (pairs at every ZoneSpecifier transition, samples, item fidelity); sampling intervals of 36 h and 48 h; a short range rendered with its own year bounds, numItems against rows.',
+    'C20': ' The third compilation of every (source, scope) compiles the other scope first in the same process and its in-memory tables are judged against its files.',
+}
+for _pid, _x in EXTRA2.items():
+    _c = CLAIMS[_pid]
+    CLAIMS[_pid] = (_c[0], _c[1], _c[2] + _x, _c[3], _c[4])
 for _pid, (_t, _x) in EXTRA.items():
     _c = CLAIMS[_pid]
     CLAIMS[_pid] = (_c[0], _c[1] + _t, _c[2] + _x, _c[3], _c[4])
